@@ -2,7 +2,7 @@
 From Cfb.model Require Import Base Names DirEnt State Alloc Dir Mini Store Handle Open Cfb.
 From Cfb.gen Require Import Consts.
 From Cfb.spec Require Import Tree.
-From Cfb.proofs Require Import ReuseProofs ReadonlyTotal PersistProofs HistoryRefine NetZero Progress DataCycle.
+From Cfb.proofs Require Import ReuseProofs ReadonlyTotal PersistProofs HistoryRefine NetZero Progress DataCycle SmallShrink.
 Set Printing Width 110.
 
 (* with a free sector available, allocation takes it and the file does not grow *)
@@ -136,6 +136,18 @@ Theorem C15_grow_and_cut_back_cycles : ltac:(let t := type of grow_cut_iter in e
 Proof. exact grow_cut_iter. Qed.
 Check C15_grow_and_cut_back_cycles.
 Print Assumptions C15_grow_and_cut_back_cycles.
+
+(* SmallShrink: a small stream grown from n0 to n1 and cut back to n0 (fewer, non-zero mini sectors), repeated: nsect, free stack and FAT unchanged from the second repetition on *)
+Theorem C15_small_grow_and_cut_back_cycles : ltac:(let t := type of small_grow_cut_stable in exact t).
+Proof. exact small_grow_cut_stable. Qed.
+Check C15_small_grow_and_cut_back_cycles.
+Print Assumptions C15_small_grow_and_cut_back_cycles.
+
+(* non-vacuity: 100 -> 1000 -> 100 bytes: the first repetition grows the file 14 -> 15 sectors, stable afterwards *)
+Theorem C15_small_grow_cut_example : ltac:(let t := type of SmallShrink.ExampleGrowCutSmall.grow_cut_100_1000 in exact t).
+Proof. exact SmallShrink.ExampleGrowCutSmall.grow_cut_100_1000. Qed.
+Check C15_small_grow_cut_example.
+Print Assumptions C15_small_grow_cut_example.
 
 (* create_new_stream into a free directory slot of a file WITH data keeps the data invariant, allocates nothing, leaves every stream as it was *)
 Theorem C15_creation_in_files_with_data : ltac:(let t := type of create_new_stream_cohtree in exact t).
